@@ -332,8 +332,33 @@ class RandQ:
         if d > 0:
             opts += [lambda: self._where(ek, scope, d - 1), lambda: self._select(ek, scope, d - 1),
                      lambda: self._smany(ek, scope, d - 1),
-                     lambda: self._pack_unpack(ek, scope, d - 1)]
+                     lambda: self._pack_unpack(ek, scope, d - 1),
+                     lambda: self._guarded(ek, scope, d - 1)]
         return self.pick(opts) if opts else None
+
+    def _guarded(self, ek, scope, d):
+        """Where(Where(s, guard), use): `use` only evaluates on the elements `guard` lets through
+        (first element of a possibly empty collection, division by a possibly zero field), so the
+        order of the two tests in a fused filter matters"""
+        r = self.rng
+        s = self.seq(ek, scope, d)
+        if s is None:
+            return None
+        v, w = self.fresh(scope), self.fresh(scope)
+        coll = {"E": [("jets", "pt"), ("tracks", "pt")], "J": [("tracks", "z0")], "T": []}[ek]
+        zero = {"E": "met", "J": "eta", "T": "z0"}[ek]
+        c = r.randint(0, 3)
+        forms = [(f"{v}.{zero} != 0", f"{r.randint(2, 9)} / {w}.{zero} > {c}"),
+                 (f"{v}.{zero} != 0", f"Count(Where(ds, lambda q{self.k}: q{self.k}.met / {w}.{zero} > {c})) >= 0")]
+        for f, g in coll:
+            forms.append((f"Count({v}.{f}) > 0", f"{w}.{f}[0].{g} > {c}"))
+            forms.append((f"Count({v}.{f}) > 0", f"First({w}.{f}).{g} > {c}"))
+            forms.append((f"Count({v}.{f}) > {c}", f"{w}.{f}[{c}].{g} != {w}.{zero}"))
+        guard, use = r.choice(forms)
+        if r.random() < 0.3:
+            # the same two filters with a projection in between
+            return f"Where(Select(Where({s}, lambda {v}: {guard}), lambda {v}: {v}), lambda {w}: {use})"
+        return f"Where(Where({s}, lambda {v}: {guard}), lambda {w}: {use})"
 
     def unpack(self, name, kind, which):
         """projection of a packed variable: component 0 (a record of kind kind[2]) or 1 (an int)"""
